@@ -15,6 +15,7 @@ import (
 	"0chain.net/smartcontract/zcnsc"
 
 	"verifh/mon"
+	"verifh/snap"
 	"verifh/world"
 )
 
@@ -158,7 +159,9 @@ func monC48(h *Hist, o *TxnObs) {
 	}
 	h.C("C48", "settings_calls_judged")
 	r := h.Runs["C48"]
-	owner := h.W.Owner.ID
+	// the owner is the one the contract's settings record in the state BEFORE the transaction (an owner can hand over through
+	// the owner_id setting); the configured owner where the state holds none yet
+	owner := h.scOwner(o.Pre, o.Txn.ToClientID)
 	isOwner := o.Txn.ClientID == owner
 	if r != nil {
 		r.Eval(1)
@@ -236,3 +239,28 @@ func monC48(h *Hist, o *TxnObs) {
 }
 
 func settingsJSON(v interface{}) string { b, _ := json.Marshal(v); return string(b) }
+
+// scOwner reads the owner id a contract's settings node records in a snapshot (fallback: the configured owner).
+func (h *Hist) scOwner(s snap.Snapshot, addr string) string {
+	typ, field := "", ""
+	switch addr {
+	case minersc.ADDRESS:
+		typ, field = "*minersc.GlobalNode", "OwnerId"
+	case storagesc.ADDRESS:
+		typ, field = "*storagesc.Config", "OwnerId"
+	case faucetsc.ADDRESS:
+		typ, field = "*faucetsc.GlobalNode", "FaucetConfig.OwnerId"
+	case vestingsc.ADDRESS:
+		typ, field = "*vestingsc.config", "OwnerId"
+	case zcnsc.ADDRESS:
+		typ, field = "*zcnsc.GlobalNode", "ZCNSConfig.OwnerId"
+	}
+	if typ != "" {
+		for _, n := range h.NodesOfType(s, typ) {
+			if id := Str(n.Val, field); id != "" {
+				return id
+			}
+		}
+	}
+	return h.W.Owner.ID
+}
